@@ -4,6 +4,8 @@
         the two coordinates handed to `wcs…pix2world(xy, origin)` for the pixel at offsets (r, c) (the two arrays
         returned by `np.where(<mask>)`, in that order) inside the island's box, whose first row / first column in the
         image are row0 / col0 (`boxes[i][0].start`, `boxes[i][1].start`), and the origin argument
+  probeFull
+        1 iff the entry point is `all_pix2world` (core WCS + SIP / distortion terms), 0 iff `wcs_pix2world` (core WCS only)
   probeScope
         1 iff `<mask>` is the island's own pixels (`labels[box] == <label>`), 0 iff it is a threshold mask of the whole box
 
@@ -131,7 +133,11 @@ def _probe(rd):
         scope = 0
     else:
         raise _Bad('mask of the probed pixels not recognised')
-    return px, py, org.value, scope
+    fname = ast.unparse(call.func).split('.')[-1]
+    if fname not in ('all_pix2world', 'wcs_pix2world'):
+        raise _Bad('pixel -> sky entry point ' + fname)
+    full = 1 if fname == 'all_pix2world' else 0     # all_ = core WCS + SIP / distortions, wcs_ = core WCS only
+    return px, py, org.value, scope, full
 
 
 def slice_text(repo):
@@ -141,10 +147,10 @@ def slice_text(repo):
             warnings.simplefilter('ignore')          # the source may contain '\\s' in plain strings
             tree = ast.parse(open(os.path.join(repo, _F)).read())
         fn = [n for n in tree.body if isinstance(n, ast.FunctionDef) and n.name == 'find_islands'][0]
-        px, py, org, scope = _probe(Reader(fn))
-        body = [f"px = {px}", f"py = {py}", f"origin = {org}", f"scope = {scope}"]
+        px, py, org, scope, full = _probe(Reader(fn))
+        body = [f"px = {px}", f"py = {py}", f"origin = {org}", f"scope = {scope}", f"full = {full}"]
     except Exception as exc:
-        body = [f"px = untranslatable({str(exc)!r})", "py = px", "origin = px", "scope = px"]
+        body = [f"px = untranslatable({str(exc)!r})", "py = px", "origin = px", "scope = px", "full = px"]
     return "def probe(r, c, row0, col0):\n" + "\n".join("    " + l for l in body) + "\n    return px\n"
 
 
@@ -159,8 +165,9 @@ def _fb(name, hand):
 
 TARGETS = [
     dict(file=_S, func='probe', mode='int', params={p: 'N' for p in _P},
-         outputs=[('px', 'probeX'), ('py', 'probeY'), ('origin', 'probeOrigin'), ('scope', 'probeScope')],
+         outputs=[('px', 'probeX'), ('py', 'probeY'), ('origin', 'probeOrigin'), ('scope', 'probeScope'), ('full', 'probeFull')],
          fallback={'probeX': _fb('probeX', 'probeXHand'), 'probeY': _fb('probeY', 'probeYHand'),
-                   'probeOrigin': _fb('probeOrigin', 'probeOriginHand'), 'probeScope': _fb('probeScope', 'probeScopeHand')},
+                   'probeOrigin': _fb('probeOrigin', 'probeOriginHand'), 'probeScope': _fb('probeScope', 'probeScopeHand'),
+                   'probeFull': _fb('probeFull', 'probeFullHand')},
          all_params=_P),
 ]
